@@ -11,7 +11,7 @@ use crate::exch::{ExchCfg, Gate, Menu, ServerMsg};
 use crate::exch_run::{replay_exchange, run_exchanges};
 use crate::gen::*;
 
-pub const RULE: &str = "requests {POST, PUT, PATCH, GET with send-body-despite-method} x {HTTP/1.0, 1.1} x {Content-Length: 3, chunked}, all with Expect: 100-continue, plus flows obtained by following a 302 / 307 redirect that inherit the Expect header and are converted with send-body-despite-method; server: bare interim 100 with reason {Continue, empty, none, 200-byte phrase} in HTTP/1.0 and 1.1 followed by the final response after the body, or a refusal = final head with status {101,102,103,199,200,204,205,300,302,403,417,500} bare / with 1 / with 2 fields (200 and 403 also with Connection: keep-alive) arriving instead of the 100, or a silent server; per exchange the COMPLETE graph with 1-byte arrivals, try_read_100 at every window (while can_keep_await_100), give-up at EVERY prefix, then both later paths (body then response incl. late 100, or response directly) run to Cleanup. distinct = distinct (exchange, final observation) pairs (several per exchange are legitimate here: give-up before a refusal sends the body)";
+pub const RULE: &str = "requests {POST, PUT, PATCH, GET with send-body-despite-method} x {HTTP/1.0, 1.1} x {Content-Length: 3, chunked}, all with Expect: 100-continue, plus flows obtained by following a 302 / 307 redirect that inherit the Expect header and are converted with send-body-despite-method; server: bare interim 100 with reason {Continue, empty, none, 200-byte phrase} in HTTP/1.0 and 1.1 followed by the final response after the body, or a refusal = final head with status {101,102,103,199,200,204,205,300,302,403,417,500} bare / with 1 / with 2 fields (200 and 403 also with Connection: keep-alive, and with an empty-valued field first) arriving instead of the 100, or a silent server; per exchange the COMPLETE graph with 1-byte arrivals, try_read_100 at every window (while can_keep_await_100), give-up at EVERY prefix, then both later paths (body then response incl. late 100, or response directly) run to Cleanup. distinct = distinct (exchange, final observation) pairs (several per exchange are legitimate here: give-up before a refusal sends the body)";
 
 fn long_phrase() -> String {
     let mut s = String::new();
@@ -75,15 +75,19 @@ pub fn build(tier: Tier) -> Vec<Arc<ExchCfg>> {
         scripts.push((server(final_ok.clone(), None, Gate::AfterBody), next.clone()));
         // refusals
         for status in [101u16, 102, 103, 199, 200, 204, 205, 300, 302, 403, 417, 500] {
-            for nf in 0..=3usize {
+            for nf in 0..=4usize {
                 for ver in ["1.0", "1.1"] {
                     if ver == "1.0" && !(status == 403 || status == 200) {
                         continue;
                     }
-                    if nf == 3 && !(status == 403 || status == 200) {
+                    if nf >= 3 && !(status == 403 || status == 200) {
                         continue;
                     }
                     let mut m = RespMsg::new(ver, status, "Nope");
+                    if nf == 4 {
+                        // an empty-valued field first
+                        m = m.field("X-Pad", "");
+                    }
                     if nf == 3 {
                         // a refusal that asks to keep the connection: still must-close, the body was never sent
                         m = m.field("Connection", "keep-alive");
